@@ -996,7 +996,7 @@ def mesh_formats(repo, col):
             all(o == "C" for o in orders), "" if all(o == "C" for o in orders)
             else "reader reshapes in non-C order")
     # winding: flipped exactly when det < 0
-    a = repo.func("mesh", "affine_transform_mesh")
+    a = repo.func("mesh", "affine_transform_mesh", inline=True)
     flips = []
 
     def rec(stmts, conds):
@@ -1008,8 +1008,16 @@ def mesh_formats(repo, col):
                 flips.append((st, conds))
     rec(a.node.body, [])
     if not flips:
-        col.add(rule + ".winding", a, "np.flip(triangles, axis=1)", False,
-                "triangle winding is never reversed for mirroring transforms")
+        # reversed some other way (index swap, fancy indexing)?
+        touched = any(
+            isinstance(x, (ast.Assign, ast.AugAssign)) and
+            "triangles" in norm(x.targets[0] if isinstance(x, ast.Assign)
+                                else x.target)
+            for x in ast.walk(a.node))
+        col.add(rule + ".winding", a, "np.flip(triangles, axis=1)", touched,
+                "triangle winding is never reversed for mirroring transforms"
+                if not touched else "the triangles are re-ordered by a "
+                "construct other than np.flip", undecided=touched)
     for st, conds in flips:
         c = [x for x in calls_in(st) if (call_name(x) or "").endswith("flip")][0]
         ax = kwarg(c, "axis")
@@ -1032,7 +1040,12 @@ def mesh_formats(repo, col):
                     det = l.args[0]
                     okc = isinstance(op, ast.Lt) and (
                         const_int(r) == 0 or norm(r) in ("0.0", "0.0"))
-                    okc = okc and norm(det) == "coord_transform[:3, :3]"
+                    dtxt = norm(expand(det, table, depth=4))
+                    if dtxt != "coord_transform[:3, :3]" and okc:
+                        # the 3x3 part reached through a helper's record
+                        okc, undc = False, "[:3, :3]" not in dtxt
+                        if "[:3, :3]" in dtxt:
+                            okc = True
             if det is None and "det(" not in norm(t):
                 undc = True       # sign obtained some other way
         col.add(rule + ".winding", a, "flip iff det < 0", okc or undc,
